@@ -2,7 +2,8 @@
 inputs (engine.harness.chain).  A single name = that unit twice (same shapes, different values: detects state kept
 between calls - memoisation keyed on lengths / shapes / sample sizes only, reused buffers, mutated module tables); a list
 = those units in that order (same lengths, different grids / masks / options).  A '?' prefix marks units that only
-exist in one tier.  Unknown names are an error."""
+exist in one tier.  A name that is not an exact unit name is a regular expression (unit names that depend on
+the run's seed); unknown names / patterns without a match are an error."""
 
 HIST = {
     'C01': ['heterozygosity-L4-const', 'heterozygosity-L4-func', 'stationary-L4-const-steps1-delj0',
@@ -10,17 +11,17 @@ HIST = {
     'C02': ['driver-1pop-const-L4-frozen-', 'driver-1pop-func-L4-frozen-', 'driver-2pop-const-L4-frozen--',
             'driver-2pop-func-L4-frozen--', 'driver-3pop-const-L3-frozen---',
             ['driver-2pop-const-L4-frozen---delj1', 'driver-2pop-const-L4-frozen--']],
-    'C03': [['linear-1pop-L4-g1-p0-steps2-const--', 'linear-1pop-L4-g2-p1-steps3-const--'],
-            ['linear-1pop-L4-g1-p0-steps2-func--', 'linear-1pop-L4-g2-p1-steps3-func--'],
-            ['linear-2pop-L4-g2-p0-steps2-const---', 'linear-2pop-L4-g0-p1-steps3-const---'],
-            ['linear-2pop-L4-g2-p0-steps2-func---', 'linear-2pop-L4-g0-p1-steps3-func---'],
-            ['?linear-3pop-L3-g0-p0-steps2-const----', '?linear-3pop-L3-g1-p1-steps2-const----'],
-            ['?linear-3pop-L4-g0-p0-steps2-const----', '?linear-3pop-L4-g1-p1-steps2-const----'],
+    'C03': [[r'linear-1pop-L4-g\d-p\d-steps2-const--', r'linear-1pop-L4-g\d-p\d-steps3-const--'],
+            [r'linear-1pop-L4-g\d-p\d-steps2-func--', r'linear-1pop-L4-g\d-p\d-steps3-func--'],
+            [r'linear-2pop-L4-g\d-p\d-steps2-const---', r'linear-2pop-L4-g\d-p\d-steps3-const---'],
+            [r'linear-2pop-L4-g\d-p\d-steps2-func---', r'linear-2pop-L4-g\d-p\d-steps3-func---'],
+            [r'?linear-3pop-L3-g\d-p\d-steps2-const----', r'?linear-3pop-L3-g\d-p\d-steps2-const----'],
+            [r'?linear-3pop-L4-g\d-p\d-steps2-const----', r'?linear-3pop-L4-g\d-p\d-steps2-const----'],
             'scale-phi_1D-L4'],
-    'C04': [['e2e-frozen-2pop-L4-g0-F--p0-steps1', 'e2e-frozen-2pop-L4-g1--F-p0-steps1'],
-            ['e2e-isolated-2pop-L4-g0-S1-p0-const', 'e2e-isolated-2pop-L4-g1-S2-p1-const'],
-            ['e2e-isolated-3pop-L4-g0-S1-p0-const', 'e2e-isolated-3pop-L4-g1-S2-p1-const'],
-            ['e2e-isolated-3pop-L4-g0-S1-p0-func', 'e2e-isolated-3pop-L4-g1-S2-p1-func'],
+    'C04': [[r'e2e-frozen-2pop-L4-g\d-F--p\d-steps\d', r'e2e-frozen-2pop-L4-g\d--F-p\d-steps\d'],
+            [r'e2e-isolated-2pop-L4-g\d-S1-p\d-const', r'e2e-isolated-2pop-L4-g\d-S2-p\d-const'],
+            [r'e2e-isolated-3pop-L4-g\d-S1-p\d-const', r'e2e-isolated-3pop-L4-g\d-S2-p\d-const'],
+            [r'e2e-isolated-3pop-L4-g\d-S1-p\d-func', r'e2e-isolated-3pop-L4-g\d-S2-p\d-func'],
             'marginalisation-real-code-vs-oracle', ['flags-2pop-const---', 'flags-2pop-const--N']],
     'C05': ['entries-analytic-S-L4-n3', 'entries-direct-S-L4-n3', 'entries-direct-het-xx-S-L4-n2',
             'project-analytic-S-L4-n3', 'admix-symbolic-rows2-AB-L3x4-n2x2',
